@@ -5,7 +5,7 @@ import random
 
 from harness import gen
 from harness import refcal as R
-from harness.common import MEANING, TimePoint, cpu_watchdog, mk_tp, outcome, proj_tp, set_mode, tp_rec
+from harness.common import DAY, MEANING, TimePoint, cpu_watchdog, mk_tp, outcome, proj_tp, set_mode, tp_rec
 
 PROP = "C20"
 
@@ -133,6 +133,16 @@ def expand(job):
             p = dict(p, rep=rep_, y=y2, a=a_, b=b_)
             if rnd.random() < 0.7:
                 t.update(dom=0, doy=min(366, R.diy(m, 2000)), dow=0, woy=0)
+        elif x < 0.18:
+            # t carries an offset of its own, and p - read in THAT offset - stands exactly at (or one second off) midnight
+            zt = rnd.choice([z_ for z_ in [(0, 0), (1, 0), (2, 0), (-5, 0), (5, 30), (-3, -30), (0, 45), (13, 45), (-11, 0)] if z_ != (p["zh"], p["zm"])])
+            if rnd.random() < 0.6:
+                t.update(hh=-1, mi=-1, ss=-1)
+                if not (t["dom"] or t["doy"] or t["dow"]):
+                    t["dow"] = rnd.randint(1, 7)
+            t.update(zu=False, zh=zt[0], zm=zt[1])
+            sod = ((p["zh"] * 60 + p["zm"]) * 60 - (zt[0] * 60 + zt[1]) * 60 + rnd.choice([0, 0, 0, 1, -1])) % DAY
+            p = dict(p, hh=sod // 3600, mi=sod // 60 % 60, ss=sod % 60)
         yield {"mode": sp, "t": t, "p": p, "order": rnd.choice(["t+p", "p+t"])}
 
 
